@@ -97,7 +97,7 @@ fn(H2 + ".handle", params={"event": _ev.IO_EVENTS}, task="reader",
        ("C03.h2.closed-flag", "implies(isinstance(event, Closed), self.closed)", "C03,C07"),
        # C03 (per HTTP/2 stream): when the connection is reported closed -- however often -- every
        # stream that exists is closed (each gets its StreamClosed, hence its disconnect)
-       ("C03.h2.close-all", "implies(isinstance(event, Closed), forall_int('k', implies(k % 2 == 1, not in_map(self.streams, k))))", "C03"),
+       ("C03.h2.close-all", "implies(isinstance(event, Closed), forall_int('k', implies(k % 2 == 1, not in_map(self.streams, k))))", "C03,C07"),
        # C08 "whenever ... the connection closes, every waiting send returns promptly": the send task
        # stops when the connection is closed, so nothing would ever release a sender blocked in
        # push()/drain() on a buffer that stays registered: when Closed has been handled no send
